@@ -44,10 +44,13 @@ type c05gen struct {
 	usedFrac   bool
 	usedFlex   bool // flex or flex1 (not supported by x/image)
 	flex1Tie   bool // a flex1 with |dx| == |dy| was generated
-	onlyFrag   int  // 0 = any arithmetic fragment, k+1 = only fragment k of val
-	stored     [32]bool
-	opHist     map[string]int
-	moved      bool
+	// deprecated forms of TN5177 appendix C
+	usedDeprecated bool
+	seac           *[4]fix // operands of an endchar in the seac form
+	onlyFrag       int     // 0 = any arithmetic fragment, k+1 = only fragment k of val
+	stored         [32]bool
+	opHist         map[string]int
+	moved          bool
 }
 
 var t2opcode = map[string][]byte{
@@ -59,6 +62,7 @@ var t2opcode = map[string][]byte{
 	"neg": {12, 14}, "eq": {12, 15}, "drop": {12, 18}, "put": {12, 20}, "get": {12, 21}, "ifelse": {12, 22},
 	"random": {12, 23}, "mul": {12, 24}, "sqrt": {12, 26}, "dup": {12, 27}, "exch": {12, 28}, "index": {12, 29},
 	"roll": {12, 30}, "hflex": {12, 34}, "flex": {12, 35}, "hflex1": {12, 36}, "flex1": {12, 37},
+	"dotsection": {12, 0}, // deprecated (TN5177 appendix C): a no-op
 }
 
 // t2num encodes a number.  form: 0 = random legal form.
@@ -126,6 +130,8 @@ func (g *c05gen) op(name string, after int, extra ...byte) {
 	case "hintmask", "cntrmask", "hstem", "vstem", "hstemhm", "vstemhm", "endchar", "callsubr", "callgsubr", "return",
 		"rmoveto", "hmoveto", "vmoveto", "rlineto", "hlineto", "vlineto", "rrcurveto", "hhcurveto", "vvcurveto",
 		"hvcurveto", "vhcurveto", "rcurveline", "rlinecurve", "hflex", "hflex1":
+	case "dotsection":
+		g.usedDeprecated = true
 	case "flex", "flex1":
 		g.usedFlex = true
 	default:
@@ -795,6 +801,8 @@ type c05opts struct {
 	width       bool
 	onlyOps     []string // restrict the path operators (nil = all)
 	onlyFrag    int      // restrict the arithmetic fragments (see c05gen.onlyFrag)
+	seac        bool     // end with "adx ady bchar achar endchar" (deprecated, TN5177 appendix C)
+	dotsection  bool     // sprinkle dotsection (deprecated no-op) over the path section
 }
 
 // c05fragNames names the arithmetic fragments of val.
@@ -953,6 +961,9 @@ func c05program(r *rand.Rand, o c05opts, fault string) *c05gen {
 			c05inject(g, fault)
 			fault = ""
 		}
+		if o.dotsection && r.IntN(2) == 0 {
+			g.op("dotsection", 0) // directly behind the moveto
+		}
 		n := r.IntN(6)
 		for i := 0; i < n && nOps < o.maxPathOps; i++ {
 			name := names[r.IntN(len(names))]
@@ -964,6 +975,9 @@ func c05program(r *rand.Rand, o c05opts, fault string) *c05gen {
 			if o.masks && nStems > 0 && r.IntN(5) == 0 {
 				mask("hintmask")
 			}
+			if o.dotsection && r.IntN(3) == 0 {
+				g.op("dotsection", 0)
+			}
 		}
 	}
 	if fault != "" && fault != "missing-endchar" {
@@ -972,6 +986,13 @@ func c05program(r *rand.Rand, o c05opts, fault string) *c05gen {
 	}
 	g.width(&pending)
 	if fault != "missing-endchar" {
+		if o.seac {
+			// accent offset and the standard-encoding codes of base and accent character
+			v := [4]fix{g.smallInt(600), g.smallInt(600), t2interp.FromInt(r.IntN(256)), t2interp.FromInt(r.IntN(256))}
+			g.operands(v[:])
+			g.seac = &v
+			g.usedDeprecated = true
+		}
 		g.op("endchar", 0)
 	}
 	return g
